@@ -118,6 +118,10 @@ def robustness(part: str, res: Dict[str, Any], tier: str) -> None:
     pl = ''.join(BASE_LINES).encode()
     if part == 'linker':
         linker_use(res)
+    elif part == 'linker-aliases':
+        linker_aliases(res)
+    elif part == 'updates':
+        update_histories(res)
     elif part == 'truncate':
         for i in range(len(GOOD) + 1):
             fault('truncated', GOOD[:i], res, False, i)
@@ -331,8 +335,102 @@ def linker_use(res: Dict[str, Any]) -> None:
                 res['violations'].append(core.violation(f'inventory-link/{rel}', f'{fmt}: {q(name)} in pk.core links to {got!r}, the loaded inventory says {url!r}', case))
 
 
+URLS = ['http://h/docs/objects.inv', 'http://h/docs/api.inv', 'http://h/other/objects.inv', 'http://h2/docs/objects.inv', 'http://h/docs/objects.inv?v=2']
+
+
+def update_histories(res: Dict[str, Any]) -> None:
+    """One SphinxInventory object, sequences of <= 3 update() calls (as --intersphinx given several times does): inventories in the same
+    directory, the same URL again, a fetch that fails and is retried, a malformed line in a later inventory.  After every sequence: the names of
+    every inventory that loaded resolve against that inventory's own base URL, and every malformed line was reported when its inventory was read."""
+    from pydoctor.sphinx import SphinxInventory
+
+    class MultiCache:
+        def __init__(self) -> None:
+            self.data: Dict[str, Optional[bytes]] = {}
+
+        def get(self, url: str) -> Optional[bytes]:
+            return self.data.get(url)
+    steps = []
+    for ui, u in enumerate(URLS):
+        steps.append((u, 'good'))
+        steps.append((u, 'bad-line'))
+        steps.append((u, 'fetch-fails'))
+    for L in (1, 2, 3):
+        for seq in itertools.product(steps, repeat=L):
+            msgs: List[Tuple[Any, Any]] = []
+            inv = SphinxInventory(logger=lambda *a, **k: msgs.append((a, k)))
+            cache = MultiCache()
+            expect: Dict[str, str] = {}
+            res['evals'] += 1
+            case = {'kind': 'updates', 'seq': [list(x) for x in seq]}
+            ok = True
+            for k, (u, how) in enumerate(seq):
+                name = f'lib{URLS.index(u)}.n{k}'
+                base = u.rsplit('/', 1)[0]
+                body = f'{name} py:function 1 page{k}.html#$ -\n' + ('this line is malformed\n' if how == 'bad-line' else '')
+                cache.data[u] = None if how == 'fetch-fails' else HEADER + zlib.compress(body.encode())
+                before = errors_of(msgs)
+                try:
+                    inv.update(cache, u)
+                except BaseException as e:  # noqa
+                    if type(e).__name__ == 'JobTimeout':
+                        raise
+                    res['violations'].append(core.violation(f'update-history/raises/{type(e).__name__}', f'update #{k + 1} of {seq} raises {type(e).__name__}', case))
+                    ok = False
+                    break
+                if how != 'fetch-fails':
+                    expect[name] = f'{base}/page{k}.html#{name}'
+                if how in ('bad-line', 'fetch-fails') and errors_of(msgs) == before:
+                    res['violations'].append(core.violation(f'update-history/not-reported/{how}', f'update #{k + 1} ({u}, {how}) of {seq} reported nothing', case))
+                    ok = False
+                    break
+            if not ok:
+                continue
+            res['nontrivial'].add(core.h('updates', seq))
+            for name, url in expect.items():
+                got = inv.getLink(name)
+                if got != url:
+                    same_dir = len({x[0].rsplit('/', 1)[0] for x in seq}) < len({x[0] for x in seq})
+                    res['violations'].append(core.violation('update-history/name-lost/' + ('same-directory' if same_dir else 'same-url' if len({x[0] for x in seq}) < len(seq) else 'other'),
+                                                            f'after updates {seq}: {name} resolves to {got!r}, expected {url!r}', case))
+                    break
+
+
+def linker_aliases(res: Dict[str, Any]) -> None:
+    """A reference written through a local import whose spelling is itself an entry of a loaded inventory: the name the scope binds wins."""
+    import re as _re
+    from pydoctor import epydoc2stan
+    from pydoctor.stanutils import flatten
+    lines = ['socket py:module 0 library/socket.html -', 'socket.socket py:class 1 library/socket.html#$ -', 'socket.socket.recv py:method 1 library/socket.html#$ -',
+             'netlib.socket py:module 0 netlib.socket.html -', 'netlib.socket.socket py:class 1 netlib.socket.socket.html -', 'netlib.socket.socket.recv py:method 1 netlib.socket.socket.html#recv -',
+             'json py:module 0 library/json.html -', 'netlib.fast py:module 0 netlib.fast.html -', 'netlib.fast.loads py:function 1 netlib.fast.html#loads -', 'json.loads py:function 1 library/json.html#$ -']
+    data = HEADER + zlib.compress(('\n'.join(lines) + '\n').encode())
+    for fmt, q in (('epytext', lambda n: 'L{%s}' % n), ('restructuredtext', lambda n: '`%s`' % n)):
+        for imp, refs in (('from netlib import socket', {'socket.socket': 'http://h/netlib.socket.socket.html', 'socket.socket.recv': 'http://h/netlib.socket.socket.html#recv', 'socket': 'http://h/netlib.socket.html'}),
+                          ('import netlib.fast as json', {'json.loads': 'http://h/netlib.fast.html#loads', 'json': 'http://h/netlib.fast.html'}),
+                          ('import socket', {'socket.socket': 'http://h/library/socket.html#socket.socket'}),
+                          ('', {'socket.socket': 'http://h/library/socket.html#socket.socket', 'json.loads': 'http://h/library/json.html#json.loads'})):
+            src = imp + '\n' + ''.join(f'def f{i}():\n    "see {q(n)}"\n' for i, n in enumerate(refs))
+            s = pd.new_system({'docformat': fmt}, systemcls=pd.RecordingSystem)
+            s.intersphinx.update(Cache(data), 'http://h/objects.inv')
+            b = s.systemBuilder(s)
+            b.addModuleString('"pk"', 'pk', is_package=True)
+            b.addModuleString(src, 'core', 'pk')
+            b.buildModules()
+            for i, (name, url) in enumerate(refs.items()):
+                res['evals'] += 1
+                res['nontrivial'].add(core.h('linker-alias', fmt, imp, name))
+                hrefs = _re.findall(r'href="([^"]+)"', flatten(epydoc2stan.format_docstring(s.allobjects[f'pk.core.f{i}'])))
+                got = hrefs[0] if hrefs else None
+                if got != url:
+                    res['violations'].append(core.violation('inventory-link/local-binding-' + ('shadows-entry' if imp and 'netlib' in imp else 'plain'),
+                                                            f'{fmt}: after {imp!r}, {q(name)} links to {got!r}, expected {url!r}', {'kind': 'linker-alias', 'fmt': fmt, 'imp': imp, 'name': name}))
+
+
 def jobs(tier: str) -> Iterable[Tuple[str, Any]]:
     yield ('linker-uses-inventory', ('robust', 'linker'))
+    yield ('linker-uses-inventory', ('robust', 'linker-aliases'))
+    yield ('update-histories<=3', ('robust', 'updates'))
     yield ('robust:truncate', ('robust', 'truncate'))
     for i in range(len(SUBS)):
         yield ('robust:header-bytes', ('robust', f'subst-header:{i}'))
@@ -389,6 +487,12 @@ def replay(case: Dict[str, Any]) -> List[Dict[str, Any]]:
         res['violations'] = [v for v in res['violations'] if v['case'] == case]
     elif case['kind'] == 'linker':
         linker_use(res)
+        res['violations'] = [v for v in res['violations'] if v['case'] == case]
+    elif case['kind'] == 'linker-alias':
+        linker_aliases(res)
+        res['violations'] = [v for v in res['violations'] if v['case'] == case]
+    elif case['kind'] == 'updates':
+        update_histories(res)
         res['violations'] = [v for v in res['violations'] if v['case'] == case]
     elif case['kind'] == 'location':
         robustness('locations', res, 'quick')
